@@ -90,7 +90,8 @@ def oracle(line, out):
     if eb is None or len(eb) not in SIZES:
         return None if v is None else "entropy of wrong size / malformed hex produced a sentence (%r)" % e[:20]
     if v is None:
-        return "valid entropy rejected"
+        # refusing hex text that carries whitespace is not against the property (no sentence is handed out)
+        return "valid entropy rejected" if e == eb.hex() or e == eb.hex().upper() else None
     ws = unstr(v).split(" ")
     if len(ws) != len(eb) * 3 // 4:
         return "sentence has %d words for %d bytes" % (len(ws), len(eb))
